@@ -168,8 +168,12 @@ def forwarding_insts(ctx, rid: str, wrapper: str, callee_names) -> List[R.Inst]:
     file = M.mods[fn.mod].rel
     out = []
     own = {"self", "cls"} | ({fn.cls.rsplit(".", 1)[1]} if fn.cls else set())
+    # locals holding a fresh instance of the wrapper's own class (`bms = BMSMap()`), whatever they are called
+    fresh = {n.targets[0].id for n in walk_no_nested(fn.node) if isinstance(n, ast.Assign) and isinstance(n.targets[0], ast.Name) and
+             isinstance(n.value, ast.Call) and isinstance(n.value.func, ast.Name) and n.value.func.id in own}
     calls = [n for n in walk_no_nested(fn.node) if isinstance(n, ast.Call) and call_name(n) in callee_names and
-             isinstance(n.func, ast.Attribute) and isinstance(n.func.value, ast.Name) and n.func.value.id in own | {"bms", "m", "ms"}]
+             isinstance(n.func, ast.Attribute) and isinstance(n.func.value, ast.Name) and
+             (n.func.value.id in own or n.func.value.id in fresh)]
     key = f"{short(wrapper)}->{'/'.join(callee_names)}"
     if not calls:
         return [R.undec(rid, key, file, fn.node.lineno, f"call to {callee_names} not found")]
